@@ -256,3 +256,25 @@ func DateREFind(s string) []string {
 	}
 	return []string{t, t[:10]}
 }
+
+// EscapeString models html.EscapeString (the five characters < > & ' " are replaced).
+func EscapeString(s string) string {
+	out := make([]byte, 0, len(s))
+	for i := 0; i < len(s); i++ {
+		switch s[i] {
+		case '<':
+			out = append(out, "&lt;"...)
+		case '>':
+			out = append(out, "&gt;"...)
+		case '&':
+			out = append(out, "&amp;"...)
+		case '\'':
+			out = append(out, "&#39;"...)
+		case '"':
+			out = append(out, "&#34;"...)
+		default:
+			out = append(out, s[i])
+		}
+	}
+	return string(out)
+}
